@@ -50,7 +50,7 @@ _KEEP = {
     'HExit': ['act', 'out'],
     'HOp': ['act', 'op'],
     'HReadBus': ['act', 'rb'],
-    'AwB': ['act', 'e'],
+    'AwB': ['act', 'e', 'also'],
     'AwE': ['act', 'e', 'canc', 'same'],
     'XAwB': ['d', 'e'],
     'XAwE': ['d', 'e', 'same', 'exc'],
@@ -60,7 +60,7 @@ _KEEP = {
     'StopE': ['d', 'b', 'exc'],
     'CancelRL': ['d', 'b', 'had'],
     'Reg': ['d', 'x', 'b', 'h', 'pat'],
-    'ExpB': ['d', 'x', 'b', 'ty', 'inc', 'exc', 'tmo'],
+    'ExpB': ['d', 'x', 'b', 'ty', 'inc', 'exc', 'tmo', 'sub'],
     'ExpE': ['d', 'x', 'b', 'e', 'err'],
     'ProcB': ['b', 'e', 'n'],
     'ProcE': ['b', 'e'],
@@ -78,7 +78,8 @@ def obs_line(l):
     elif a in _KEEP:
         out = {'a': a}
         for k in _KEEP[a]:
-            out[k] = l[k]
+            if k in l:          # optional fields (sub, also, op) are simply absent on lines that do not carry them
+                out[k] = l[k]
         if a == 'HEnter':
             out['byk'], out['bya'] = _by(l['by'])
         if a == 'ProcB':
@@ -190,7 +191,7 @@ def impl_eligible(scn):
     for ops in scn['drivers']:
         for op in ops:
             if op[0] not in _D_OPS or (op[0] == 'd' and len(op) > 3 and op[3]) \
-                    or (op[0] == 'stop' and ((len(op) > 2 and op[2]) or (len(op) > 3 and op[3]))):
+                    or (op[0] == 'stop' and ((len(op) > 2 and op[2]) or (len(op) > 3 and op[3]))) or (op[0] == 'expect' and len(op) > 7 and op[7]):
                 return False
     return True
 
